@@ -6,6 +6,7 @@
 package main
 
 import (
+	"bufio"
 	"bytes"
 	"context"
 	"encoding/json"
@@ -178,6 +179,8 @@ func jobs() map[string]job {
 			return Kitchen("x}*{color:x", "data:text/html,<script>alert(1)</script>", "x}*{color:x, serif", templ.Attributes{"data-x": "2"})
 		}, -1, false, false, false},
 		// streamed responses (flushable writers) next to plain ones
+		"bufA":    {name: "bufA", mk: func() templ.Component { return Page("alice", []string{"a1"}) }, failAt: -1},
+		"bufB":    {name: "bufB", mk: func() templ.Component { return Small("b") }, failAt: -1},
 		"streamA": {name: "streamA", mk: func() templ.Component { return Page("alice", []string{"a1"}) }, failAt: -1, stream: true},
 		"streamB": {name: "streamB", mk: func() templ.Component { return Small("b") }, failAt: -1, stream: true},
 		// pages written in Go: library components rendered with a context that never went through InitializeContext
@@ -218,7 +221,16 @@ func renderOne(j job) outcome {
 	}
 	var err error
 	var o outcome
-	if j.stream {
+	if strings.HasPrefix(j.name, "buf") { // rendered into the caller's own *bufio.Writer, which the caller keeps using (a footer, a flush)
+		w := &writer{failAt: j.failAt}
+		bw := bufio.NewWriter(w) // 4096 bytes: as large as templ's own buffers
+		err = j.mk().Render(context.Background(), bw)
+		bw.WriteString("<!-- footer of " + j.name + " -->")
+		if ferr := bw.Flush(); err == nil {
+			err = ferr
+		}
+		o = outcome{out: w.buf.String()}
+	} else if j.stream {
 		w := &flushWriter{writer: writer{failAt: j.failAt}, name: j.name}
 		err = j.mk().Render(context.Background(), w)
 		w.closed = true
@@ -314,7 +326,7 @@ func devModeReady() bool { return templruntime.VerifDevMode() }
 
 func raceMode(ref map[string]outcome) {
 	all := jobs()
-	names := []string{"codeA", "streamA", "smallB", "codeB", "streamB", "pageA", "pageB", "bigA", "bigB", "smallA", "smallB", "bigFail", "pageFail", "spreadA", "spreadB", "kitchenA", "kitchenB", "kitchenB", "kitchenA", "otherA", "smallA", "otherA", "handlerOK", "handlerFail", "mwA", "mwB", "mwA", "handlerFailEH", "handlerOK"}
+	names := []string{"bufA", "codeA", "bufB", "streamA", "smallB", "codeB", "streamB", "pageA", "pageB", "bigA", "bigB", "smallA", "smallB", "bigFail", "pageFail", "spreadA", "spreadB", "kitchenA", "kitchenB", "kitchenB", "kitchenA", "otherA", "smallA", "otherA", "handlerOK", "handlerFail", "mwA", "mwB", "mwA", "handlerFailEH", "handlerOK"}
 	var wg sync.WaitGroup
 	var mu sync.Mutex
 	mismatch := ""
@@ -430,6 +442,7 @@ func main() {
 		{"3 requests through one shared CSS middleware (registered class, inline class, script template)", [][]string{{"mwA", "mwB"}, {"mwB"}}},
 		{"streamed renders (flushable writers) and plain renders sharing the buffer pool", [][]string{{"streamA", "smallB"}, {"pageB", "streamB"}}},
 		{"pages written in Go that use library components with a context templ never initialised", [][]string{{"codeA", "codeB"}, {"codeB"}}},
+		{"renders into the callers' own bufio.Writers, which they keep using, next to plain renders", [][]string{{"bufA", "smallB"}, {"pageB", "bufB"}}},
 	}
 	if dev {
 		scenarios = []scenario{
